@@ -9,4 +9,4 @@ NOTES = ("All checks rebuild what they need from /repo's working tree through bi
 NOT_APPLICABLE = {}
 
 # properties whose check is finished, swept over seeds and registered (everything else is listed under not_applicable)
-CLAIMED = ["C01", "C08", "C09", "C11", "C13", "C02", "C10", "C12", "C05", "C06", "C17", "C18", "C03", "C07", "C04", "C16", "C19", "C20"]
+CLAIMED = ["C01", "C08", "C09", "C11", "C13", "C02", "C10", "C12", "C05", "C06", "C17", "C18", "C03", "C07", "C04", "C16", "C19", "C20", "C14", "C15"]
